@@ -4,7 +4,8 @@ From V Require Import Base.Strings Base.Result Model.Registry Model.Settings Mod
   Model.TypePath Model.Derives Model.Generate Model.Emit Model.Equal Model.Shape Model.Renumber
   Model.Families Model.Inputs Model.ExamplesTG Model.ExamplesFam
   Proofs.GenProofs Proofs.SortDedup Proofs.ItemsCanonical Proofs.RenumberPerm Proofs.Equivariance
-  Proofs.PermFamilies Proofs.Restriction Proofs.ExamplesC17.
+  Proofs.PermFamilies Proofs.Restriction Proofs.ExamplesC17
+  Model.WellFormed Proofs.RestrictionOutcome Proofs.ExamplesRestriction.
 Import ListNotations.
 
 (** keep-first: the item at an occupied path is never replaced, whatever follows in the registry *)
@@ -297,3 +298,120 @@ Theorem C17_restriction_hypotheses_satisfiable :
     is_ok (generate (restrict pi k r) s (types_equal (restrict pi k r))) = true.
 Proof. exact restriction_hypotheses_satisfiable. Qed.
 Print Assumptions C17_restriction_hypotheses_satisfiable.
+
+(** ** the OUTCOME relation of the restriction (Proofs/RestrictionOutcome.v).
+
+    If generation from the full registry succeeds and the restricted registry is CLOSED
+    ([closed], Model/WellFormed.v: every id referenced by a retained entry is retained - what
+    scale-info's [retain] guarantees; boolean form [closed_reg]), then generation from the
+    restricted registry succeeds as well, and every item it generates is an item of the full run
+    at the same path with the same tokens ([C17_restriction_tokens]).
+
+    The comparison oracle [teq'] of the restricted run: [fam_equal (restrict pi k r) s teq'] -
+    [teq'] answers [Ok true] on every pair of item-eligible entries of the restricted registry
+    that carry the same path (boolean form [fam_equalb]).  This cannot be derived from the full
+    run: there the members of a family are compared with the FIRST member in the full order,
+    which may be a dropped entry, so the pairs the restricted run compares may never have been
+    compared ("[Ok] iff [Ok]" needs [types_equal] to be an equivalence on every family, false on
+    the pinned tree: F1/F3/F14).  It holds for [teq_true], and for every reflexive oracle when
+    the restricted registry has no families ([C17_fam_equal_unique]).  The other hypotheses are
+    those of [C17_restriction_tokens]. *)
+Theorem C17_restriction_outcome :
+  forall pi k r s teq teq' m,
+    renumbering (N.of_nat (List.length r)) pi ->
+    skeleton_consistent r s -> docs_consistent r s -> derives_functional s ->
+    no_outside_roots (dr_recursive (s_dreg s)) (dropped pi k r) ->
+    closed (restrict pi k r) ->
+    fam_equal (restrict pi k r) s teq' ->
+    generate r s teq = Ok m ->
+    exists m', generate (restrict pi k r) s teq' = Ok m' /\
+      forall p id' ir', items_get m' p = Some (id', ir') ->
+        exists id ir, items_get m p = Some (id, ir) /\ type_ir_tokens s ir' = type_ir_tokens s ir.
+Proof. exact restriction_outcome. Qed.
+Print Assumptions C17_restriction_outcome.
+
+(** the [Ok]-transfer alone needs neither the consistency hypotheses nor [no_outside_roots] *)
+Theorem C17_restriction_outcome_ok :
+  forall pi k r s teq teq' m,
+    renumbering (N.of_nat (List.length r)) pi ->
+    closed (restrict pi k r) ->
+    fam_equal (restrict pi k r) s teq' ->
+    generate r s teq = Ok m ->
+    exists m', generate (restrict pi k r) s teq' = Ok m'.
+Proof. exact restriction_outcome_ok. Qed.
+Print Assumptions C17_restriction_outcome_ok.
+
+(** the same with the hypotheses as the boolean checkers *)
+Theorem C17_restriction_outcome_checked :
+  forall pi k r s teq teq' m,
+    renumbering (N.of_nat (List.length r)) pi ->
+    skeleton_consistentb r s = true -> docs_consistentb r s = true -> derives_functionalb s = true ->
+    no_outside_rootsb (dr_recursive (s_dreg s)) (dropped pi k r) = true ->
+    closed_reg (restrict pi k r) = true ->
+    fam_equalb (restrict pi k r) s teq' = true ->
+    generate r s teq = Ok m ->
+    exists m', generate (restrict pi k r) s teq' = Ok m' /\
+      forall p id' ir', items_get m' p = Some (id', ir') ->
+        exists id ir, items_get m p = Some (id, ir) /\ type_ir_tokens s ir' = type_ir_tokens s ir.
+Proof. exact restriction_outcome_checked. Qed.
+Print Assumptions C17_restriction_outcome_checked.
+
+Theorem C17_fam_equal_teq_true : forall rr s, fam_equal rr s teq_true.
+Proof. exact fam_equal_teq_true. Qed.
+Print Assumptions C17_fam_equal_teq_true.
+
+Theorem C17_fam_equal_unique :
+  forall rr s teq',
+    (forall id, teq' id id = Ok true) -> unique_item_paths rr s -> fam_equal rr s teq'.
+Proof. exact fam_equal_unique. Qed.
+Print Assumptions C17_fam_equal_unique.
+
+(** the two lemmas the transfer rests on: in a closed registry the fuel of the resolver
+    ([fuel0 rr = length rr + 2]) suffices whenever any fuel does; a successful resolution in the
+    whole registry of an id of a closed prefix is the same successful resolution in the prefix *)
+Theorem C17_resolve_fuel_enough :
+  forall rr s, closed rr ->
+    forall parents F id isf orig t,
+      resolve_rec rr s F id isf parents orig = Ok t ->
+      resolve_rec rr s (fuel0 rr) id isf parents orig = Ok t.
+Proof. exact resolve_rec_enough. Qed.
+Print Assumptions C17_resolve_fuel_enough.
+
+Theorem C17_resolve_to_closed_prefix :
+  forall r1 r2 s, closed r1 ->
+    forall f id isf parents orig t,
+      in_reg r1 id -> resolve_rec (r1 ++ r2) s f id isf parents orig = Ok t ->
+      resolve_rec r1 s f id isf parents orig = Ok t.
+Proof. exact resolve_rec_to_prefix. Qed.
+Print Assumptions C17_resolve_to_closed_prefix.
+
+(** the hypotheses are satisfiable with the real comparison [types_equal] of the restricted
+    registry (5 of 8 entries retained, recursive derives) *)
+Theorem C17_restriction_outcome_satisfiable :
+  exists pi k r s,
+    renumbering (N.of_nat (List.length r)) pi /\
+    skeleton_consistentb r s = true /\ docs_consistentb r s = true /\ derives_functionalb s = true /\
+    no_outside_rootsb (dr_recursive (s_dreg s)) (dropped pi k r) = true /\
+    closed_reg (restrict pi k r) = true /\
+    fam_equalb (restrict pi k r) s (types_equal (restrict pi k r)) = true /\
+    (List.length (restrict pi k r) < List.length r)%nat /\
+    is_ok (generate r s (types_equal r)) = true.
+Proof. exact restriction_outcome_satisfiable. Qed.
+Print Assumptions C17_restriction_outcome_satisfiable.
+
+(** the converse direction is FALSE in general: an entry outside the restriction may be the one
+    that makes the full generation fail.  Witness: [ex_reg1] (closed, generates) extended by a
+    primitive entry whose path [9bad] is not a [syn] type path; with a recursive derive rule the
+    flattening parses every entry's path and fails.  All hypotheses of [C17_restriction_outcome]
+    hold, the restricted generation is [Ok], the full one fails for EVERY oracle. *)
+Theorem C17_restriction_outcome_converse_refuted :
+  exists pi k r s,
+    renumbering (N.of_nat (List.length r)) pi /\
+    skeleton_consistentb r s = true /\ docs_consistentb r s = true /\ derives_functionalb s = true /\
+    no_outside_rootsb (dr_recursive (s_dreg s)) (dropped pi k r) = true /\
+    closed_reg (restrict pi k r) = true /\
+    fam_equal (restrict pi k r) s (types_equal (restrict pi k r)) /\
+    is_ok (generate (restrict pi k r) s (types_equal (restrict pi k r))) = true /\
+    (forall teq, is_ok (generate r s teq) = false).
+Proof. exact restriction_outcome_converse_refuted. Qed.
+Print Assumptions C17_restriction_outcome_converse_refuted.
